@@ -159,8 +159,12 @@ def rule_nonempty(ctx, M):
                 if tt[0] == "call" and tt[1].rsplit("::", 1)[-1] in ("any", "all") and len(tt[2]) == 2 \
                         and covers_all(tt[2][0]):
                     clo = tt[2][1]
+                    kind = None
+                    if clo[0] == "fn" and clo[1].rsplit("::", 1)[-1] == "is_empty":
+                        kind = "empty"     # the method itself passed as the predicate: any(Vec::is_empty)
                     if clo[0] == "agg" and clo[1].startswith("closure:"):
                         kind = closure_returns_is_empty(F, clo[1][len("closure:"):])
+                    if kind is not None:
                         name = tt[1].rsplit("::", 1)[-1]
                         if name == "any" and kind == "empty" and tr is False:
                             edges.append((b, lab))
